@@ -618,6 +618,10 @@ func c03Run(c *verifeng.Chooser, f *c03fix, env *verifhfs.Env, depth, npeers int
 	defer close(stopRecv)
 	for d := 0; d < depth && !c.Failed(); d++ {
 		verifbubble.Wait()
+		if sig, detail := verifbubble.LockOrder(); sig != "" {
+			c.Fail(oracle, "lock-order-inversion:"+sig, "%s", detail)
+			return
+		}
 		h.sampleCommitted()
 		if oracle != "C19" && h.checkC03(fmt.Sprintf("at quiescent point %d", d)) {
 			return
